@@ -9,7 +9,8 @@ REPO = os.environ.get("PV_REPO", "/repo")      # PV_REPO: run the checks against
 COQ = os.path.join(VERIF, "coq")
 BUILD = os.path.join(VERIF, "build")
 HARNESS = os.path.join(VERIF, "harness")
-EVID = os.path.join(VERIF, "evidence")
+# evidence/ holds what the checks found on /repo itself; a run against a scratch copy (PV_REPO) writes elsewhere
+EVID = os.path.join(VERIF, "evidence") if REPO == "/repo" else os.path.join(BUILD, "evidence-scratch")
 NPROC = 16
 
 F = namedtuple("F", "bits")          # an f64 by bit pattern
@@ -30,12 +31,18 @@ def hexs(s):
     return s.encode("utf-8").hex() if s else "-"
 
 
-def w_str(s): return [hexs(s)]
-def c_str(s): return "[" + ";".join(str(ord(ch)) for ch in s) + "]"
-def w_f64(x): return ["%016x" % x.bits]
-def c_f64(x): return "(bits2f 0x%016x)" % x.bits
-def w_n(n): return [str(n)]
-def c_n(n): return str(n)
+# UNSET: in a MetricFamily literal, "do not call the setter of this field" (harness token `~`); the model sees the
+# data model's default value (empty string, 0, +0.0, COUNTER).  Only family / payload fields accept it.
+UNSET = "~unset~"
+
+
+def w_str(s): return ["~"] if s == UNSET else [hexs(s)]
+def c_str(s): return "[]" if s == UNSET else "[" + ";".join(str(ord(ch)) for ch in s) + "]"
+def w_f64(x): return ["~"] if x == UNSET else ["%016x" % x.bits]
+def c_f64(x): return "(bits2f 0x0000000000000000)" if x == UNSET else "(bits2f 0x%016x)" % x.bits
+def w_n(n): return ["~"] if n == UNSET else [str(n)]
+def c_n(n): return "0" if n == UNSET else str(n)
+def c_cnt(n): return 0 if n == UNSET else n
 def c_nat(n): return "%d%%nat" % n
 def c_z(z): return ("(%d)%%Z" % z) if z < 0 else ("%d%%Z" % z)
 
@@ -94,10 +101,10 @@ def mk_metric(labels=(), gauge=None, counter=None, summary=None, untyped=None, h
     return dict(labels=list(labels), gauge=gauge, counter=counter, summary=summary, untyped=untyped, hist=hist, ts=ts)
 
 
-def w_summary(s): return [str(s["count"])] + w_f64(s["sum"]) + w_list(w_pair(w_f64, w_f64))(s["q"])
-def c_summary(s): return "(mkSummary %d %s %s)" % (s["count"], c_f64(s["sum"]), c_list(lambda q: "(mkQuantile %s %s)" % (c_f64(q[0]), c_f64(q[1])))(s["q"]))
-def w_hist(h): return [str(h["count"])] + w_f64(h["sum"]) + w_list(lambda b: [str(b[0])] + w_f64(b[1]))(h["b"])
-def c_hist(h): return "(mkHist %d %s %s)" % (h["count"], c_f64(h["sum"]), c_list(lambda b: "(mkBucket %d %s)" % (b[0], c_f64(b[1])))(h["b"]))
+def w_summary(s): return w_n(s["count"]) + w_f64(s["sum"]) + w_list(w_pair(w_f64, w_f64))(s["q"])
+def c_summary(s): return "(mkSummary %d %s %s)" % (c_cnt(s["count"]), c_f64(s["sum"]), c_list(lambda q: "(mkQuantile %s %s)" % (c_f64(q[0]), c_f64(q[1])))(s["q"]))
+def w_hist(h): return w_n(h["count"]) + w_f64(h["sum"]) + w_list(lambda b: w_n(b[0]) + w_f64(b[1]))(h["b"])
+def c_hist(h): return "(mkHist %d %s %s)" % (c_cnt(h["count"]), c_f64(h["sum"]), c_list(lambda b: "(mkBucket %d %s)" % (c_cnt(b[0]), c_f64(b[1])))(h["b"]))
 
 
 def w_metric(m):
@@ -112,8 +119,8 @@ def c_metric(m):
 
 
 def mk_family(name, help_, typ, metrics): return dict(name=name, help=help_, type=typ, metrics=list(metrics))
-def w_family(f): return w_str(f["name"]) + w_str(f["help"]) + [f["type"]] + w_list(w_metric)(f["metrics"])
-def c_family(f): return "(mkMF %s %s %s %s)" % (c_str(f["name"]), c_str(f["help"]), f["type"], c_list(c_metric)(f["metrics"]))
+def w_family(f): return w_str(f["name"]) + w_str(f["help"]) + (["~"] if f["type"] == UNSET else [f["type"]]) + w_list(w_metric)(f["metrics"])
+def c_family(f): return "(mkMF %s %s %s %s)" % (c_str(f["name"]), c_str(f["help"]), "COUNTER" if f["type"] == UNSET else f["type"], c_list(c_metric)(f["metrics"]))
 
 
 w_descargs = w_list(lambda d: w_str(d[0]) + w_str(d[1]) + w_strs(d[2]) + w_pairs(d[3]))
